@@ -25,7 +25,7 @@ pub const INFO: PropInfo = PropInfo {
         "the date is covered for every day of [1970, 9999] in the thorough tier and by biased sampling in the quick tier",
         "the reference date formatter (civil-from-days) is cross-checked against Python's email.utils once per batch (tools/selftest.py)",
     ],
-    expected_probes: &["c20.leap_day", "c20.century_boundary", "c20.year_9999", "c20.epoch", "c20.len_power_of_ten", "c20.hex_power_of_sixteen", "c20.len_zero", "c20.hex_multi_line_message", "c20.file_served_by_a_mounted_directory", "c20.body_replacing_an_earlier_one"],
+    expected_probes: &["c20.leap_day", "c20.century_boundary", "c20.year_9999", "c20.epoch", "c20.len_power_of_ten", "c20.hex_power_of_sixteen", "c20.len_zero", "c20.hex_multi_line_message", "c20.file_served_by_a_mounted_directory", "c20.body_replacing_an_earlier_one", "c20.length_of_a_gigabyte_or_more"],
 };
 
 #[derive(Clone, Debug, Serialize, Deserialize)]
@@ -40,6 +40,9 @@ pub enum Kind {
     /// a text body of `.1` bytes that replaces an earlier one of `.0` bytes on the same response (what is rendered must be
     /// the size that is sent, whatever was rendered before)
     LenAfter(usize, usize),
+    /// HEAD for a body of this many bytes (a gigabyte and more: the pages of `vec![0; n]` are never touched and HEAD sends
+    /// none of them, but the length is rendered)
+    HeadBig(usize),
 }
 const FILE_SIZES: [usize; 9] = [0, 1, 9, 10, 99, 100, 4095, 4096, 65_536];
 #[derive(Clone, Debug, Serialize, Deserialize)]
@@ -86,6 +89,7 @@ fn gen_instant() -> u64 {
 fn gen_kind(thorough: bool) -> Kind {
     let big = if thorough { 1 } else { 0 };
     match t::weighted(&[4, 3, 2, big, 3, 2, big, 3, 2]) {
+        8 if t::chance(1, 6) => Kind::HeadBig(t::pick(&[999_999_999usize, 1_000_000_000, 1_234_567_890, 2_147_483_647, 2_147_483_648, 4_294_967_295, 4_294_967_296, 9_999_999_999])),
         8 if t::chance(1, 2) => Kind::LenAfter(t::pick(&[1usize, 10, 100, 1000, 12345]), t::pick(&[0usize, 0, 1, 9, 10, 99, 100, 999])),
         8 => Kind::File(t::pick(&FILE_SIZES)),
         7 => {
@@ -184,6 +188,7 @@ fn execute(sc: &Scenario, out: &mut Outcome) {
     let app = Ohkami::new((
         "/static".Dir(dir_lit),
         "/len".GET(|Query(q): Query<N>| async move { Response::OK().with_text("x".repeat(q.n)) }),
+        "/bigz".GET(|Query(q): Query<N>| async move { Response::OK().with_payload("application/octet-stream", vec![0u8; q.n]) }),
         "/len2".GET(|Query(q): Query<N>| async move { Response::OK().with_text("p".repeat(q.l.unwrap_or(0))).with_text("x".repeat(q.n)) }),
         "/sse".GET(|Query(q): Query<N>| async move {
             let text = vec!["y".repeat(q.n); q.l.unwrap_or(1)].join("\n");
@@ -209,9 +214,11 @@ fn execute(sc: &Scenario, out: &mut Outcome) {
                 Kind::HexLines(n, l) => format!("/sse?n={n}&l={l}"),
                 Kind::File(n) => format!("/static/f{n}.txt"),
                 Kind::LenAfter(prev, n) => format!("/len2?n={n}&l={prev}"),
+                Kind::HeadBig(n) => format!("/bigz?n={n}"),
             };
-            c.send(format!("GET {target} HTTP/1.1\r\nHost: s\r\n\r\n").as_bytes(), 0);
-            let r = c.recv(false, DEFAULT_TIMEOUT).await;
+            let head = matches!(p.kind, Kind::HeadBig(_));
+            c.send(format!("{} {target} HTTP/1.1\r\nHost: s\r\n\r\n", if head { "HEAD" } else { "GET" }).as_bytes(), 0);
+            let r = c.recv(head, DEFAULT_TIMEOUT).await;
             let ok = r.is_ok();
             o.borrow_mut().push(r);
             if !ok {
@@ -275,6 +282,14 @@ fn execute(sc: &Scenario, out: &mut Outcome) {
                 let cl = resp.header("content-length").unwrap_or("");
                 if cl != n.to_string() || resp.body.len() != n {
                     out.violate("decimal", "content-length-differs", format!("a file of {n} bytes is announced as Content-Length {:?} ({} bytes arrived)", cl, resp.body.len()));
+                    return;
+                }
+            }
+            Kind::HeadBig(n) => {
+                out.probe("c20.length_of_a_gigabyte_or_more");
+                let cl = resp.header("content-length").unwrap_or("");
+                if cl != n.to_string() {
+                    out.violate("decimal", "content-length-differs", format!("a body of {n} bytes is announced (to HEAD) as Content-Length {:?}", cl));
                     return;
                 }
             }
